@@ -171,6 +171,98 @@ def send_on_closed_socket_case():
     return obs
 
 
+def concurrent_senders_round(port, size):
+    """While a big message is on its way to a slowly reading peer, other threads send too (a Linktest.req, a small data message).
+    Every send that reports success arrives as ONE contiguous frame: the peer's byte stream is a sequence of exactly the frames sent."""
+    from secsgem.hsms.header import HsmsHeader, HsmsSType
+    from secsgem.hsms.message import HsmsMessage
+    tcpmod.TcpConnection.select_timeout = 0.02
+    settings = secsgem.hsms.HsmsSettings(address="127.0.0.1", port=port, connect_mode=secsgem.hsms.HsmsConnectMode.PASSIVE, device_id=0)
+    settings.timeouts.t6 = 1
+    proto = secsgem.hsms.HsmsProtocol(settings)
+    obs = {"size": size}
+    proto.enable()
+    try:
+        deadline = time.monotonic() + 5
+        while True:
+            try:
+                sock = socket.socket(socket.AF_INET, socket.SOCK_STREAM)
+                sock.setsockopt(socket.SOL_SOCKET, socket.SO_RCVBUF, 4096)
+                sock.connect(("127.0.0.1", port))
+                break
+            except OSError:
+                sock.close()
+                if time.monotonic() > deadline:
+                    raise
+                time.sleep(0.02)
+        deadline = time.monotonic() + 5
+        while proto.connection_state.current.value != 2 and time.monotonic() < deadline:
+            time.sleep(0.005)
+        proto._connection._sock.setsockopt(socket.SOL_SOCKET, socket.SO_SNDBUF, 4096)
+        big = HsmsMessage(HsmsHeader(77, 0, 1, 1, False, 0, HsmsSType.DATA_MESSAGE), bytes((i * 7 + (i >> 8)) & 0xFF for i in range(size)))
+        small = HsmsMessage(HsmsHeader(78, 0, 1, 3, False, 0, HsmsSType.DATA_MESSAGE), b"\x01\x00")
+        received = bytearray()
+        stop = threading.Event()
+
+        def reader():
+            sock.settimeout(0.5)
+            while not stop.is_set():
+                try:
+                    chunk = sock.recv(2048)
+                except socket.timeout:
+                    continue
+                except OSError:
+                    break
+                if not chunk:
+                    break
+                received.extend(chunk)
+                time.sleep(0.0005)
+
+        rt = threading.Thread(target=reader, daemon=True)
+        rt.start()
+        results = {}
+        t_big = threading.Thread(target=lambda: results.setdefault("big", proto.send_message(big)), daemon=True)
+        t_big.start()
+        deadline = time.monotonic() + 10
+        while len(received) < size // 3 and time.monotonic() < deadline:
+            time.sleep(0.002)
+        t_lt = threading.Thread(target=lambda: results.setdefault("linktest", proto.send_linktest_req()), daemon=True)      # nobody answers: returns after T6
+        t_small = threading.Thread(target=lambda: results.setdefault("small", proto.send_message(small)), daemon=True)
+        t_lt.start()
+        t_small.start()
+        for th in (t_big, t_small, t_lt):
+            th.join(60)
+        obs["senders_returned"] = not any(th.is_alive() for th in (t_big, t_small, t_lt))
+        obs["reported"] = {"big": results.get("big"), "small": results.get("small")}
+        want = len(big.blocks[0].encode()) + len(small.blocks[0].encode()) + 14
+        deadline = time.monotonic() + 30
+        while len(received) < want and time.monotonic() < deadline:
+            time.sleep(0.01)
+        stop.set()
+        rt.join(3)
+        # the stream, cut at the length prefixes
+        frames, data = [], bytes(received)
+        while len(data) >= 4:
+            n = int.from_bytes(data[:4], "big") + 4
+            if n < 14 or len(data) < n:
+                break
+            frames.append(data[:n])
+            data = data[n:]
+        expected = [big.blocks[0].encode(), small.blocks[0].encode()]
+        data_frames = [f for f in frames if f[9] == 0]
+        linktests = [f for f in frames if f[9] == 5 and len(f) == 14]
+        obs["frames_received"] = [len(f) for f in frames]
+        obs["trailing_bytes_that_are_no_frame"] = len(data)
+        obs["stream_is_exactly_the_frames_sent"] = (len(data) == 0 and sorted(data_frames) == sorted(expected) and len(linktests) == 1 and len(frames) == 3)
+        sock.close()
+    finally:
+        try:
+            common.with_deadline(proto.disable, 15.0)
+        except common.Wedged:
+            obs["disable_hung"] = True
+    return obs
+
+
 HOLD_BACK = 6000
 
 
@@ -366,6 +458,16 @@ def run(tier, replay=None):
     closed_obs = common.guarded(send_on_closed_socket_case, "send_message right after the socket was closed", twedged, 60.0)
     if closed_obs is not None and not (closed_obs.get("send_returned") and closed_obs.get("reported") is False):
         report.violation({"kind": "counterexample", "what": "a send on a connection whose socket had just been closed did not come back with failure", **closed_obs}, True, tag="closedsocket")
+    conc = []
+    for size in ([600000] if tier == "quick" else [200000, 600000, 3 * 1024 * 1024]):
+        obs = common.guarded(lambda size=size: concurrent_senders_round(common.own_port(4), size), f"loopback: {size} bytes on their way while other threads send", twedged, 120.0)
+        if obs is None:
+            continue
+        conc.append(obs)
+        if not (obs.get("senders_returned") and obs.get("reported") == {"big": True, "small": True} and obs.get("stream_is_exactly_the_frames_sent")):
+            report.violation({"kind": "counterexample", "what": "sends of several threads at the same time: a send was reported successful but its bytes did not arrive as one complete, contiguous frame", **obs}, True, tag="concurrent")
+            break
+    cov_conc = conc
     # a later packet of a frame is not written: the call reports failure
     later = []
     for packet, size, fail_at in ([(8, 20, 2), (8, 20, 5), (16, 100, 3), (8, 20, 6)] if tier == "quick" else [(p, sz, f) for p in (4, 8, 16) for sz in (0, 20, 100) for f in (1, 2, 3, 5, 9, 40)]):
@@ -405,6 +507,7 @@ def run(tier, replay=None):
     cov["correspondence"] = {k2: v for k2, v in stats.items() if k2 != "eval_errors"}
     cov["later_packet_fails"] = later
     cov["send_on_closed_socket"] = closed_obs
+    cov["concurrent_senders"] = cov_conc
     cov["loopback"] = [{k2: o.get(k2) for k2 in ("size", "pacing", "closed_right_after_send", "reported", "identical", "received", "send_seconds")} for o in rounds]
     cov["distribution"] = {"data_sizes": dict(Counter(len(c[1]) for c in cases)), "script_lengths": dict(Counter(len(c[0]) for c in cases))}
     cov["samples"] = [f"{c[0]} / {len(c[1])} bytes" for c in cases[:: max(1, len(cases) // 5)][:5]]
